@@ -180,7 +180,9 @@ def gen(rng, tier):
     if r < 0.35:
       ops.append({'op': 'invalid', 'kind': rng.choice(
           ['bad_name', 'bad_module', 'duplicate_other', 'duplicate_equal',
-           'unknown_in_list', 'both_lists', 'non_list']),
+           'unknown_in_list', 'both_lists', 'non_list',
+           'class_with_regmethod_bad_list']),
+                  'n': i,
                   'target': 'T%d' % rng.randint(0, i)})
     elif r < 0.55:
       ops.append({'op': 'interactive', 'target': 'T%d' % rng.randint(0, i),
@@ -219,6 +221,7 @@ def run(case):
   twin_mod = types.ModuleType(MOD + '_twin')
   registered = {}      # name -> dict(obj, conf, shape, api)
   all_names = []
+  extra_names = []
 
   def build(name, shape, target_mod):
     if shape == 'builtin':
@@ -442,6 +445,20 @@ def run(case):
         elif kind == 'unknown_in_list':
           gin.external_configurable(fresh_fn('Zq'), name='Zq',
                                     allowlist=['a', 'nope'])
+        elif kind == 'class_with_regmethod_bad_list':
+          # A class whose method is registered already; the class registration
+          # is rejected for its list and must leave the method where it was.
+          gk = {'__name__': MOD}
+          mname = 'zmeth%d' % op.get('n', 0)
+          exec('class ZqK%d:\n  def __init__(self, a=1):\n    self.a = a\n'  # pylint: disable=exec-used
+               '  def %s(self, m=5):\n    return m\n' % (op.get('n', 0), mname),
+               gk)
+          zk = gk['ZqK%d' % op.get('n', 0)]
+          setattr(zk, mname, gin.register(getattr(zk, mname)))
+          extra_names.append(mname)
+          before = _registry_view(gin, all_names + ['bad name', 'Zq'] +
+                                  extra_names)
+          gin.external_configurable(zk, allowlist=['a', 'nope'])
         elif kind == 'both_lists':
           gin.external_configurable(fresh_fn('Zq'), name='Zq', allowlist=['a'],
                                     denylist=['a'])
@@ -455,9 +472,9 @@ def run(case):
         v('C13.invalid_rejected', [kind],
           'invalid registration (%s, target %s) was accepted' %
           (kind, op['target']))
-      after = _registry_view(gin, all_names + ['bad name', 'Zq'])
-      changed = [q for q in before if before[q] is not after[q] and
-                 before[q] != after[q]]
+      after = _registry_view(gin, all_names + ['bad name', 'Zq'] + extra_names)
+      changed = [q for q in before if q in after and
+                 before[q] is not after[q] and before[q] != after[q]]
       if changed:
         v('C13.rejection_atomic', [kind],
           'after the rejected registration (%s) the registry answers '
@@ -508,6 +525,19 @@ def run(case):
       else:
         registered[name] = {'obj': None, 'conf': None, 'shape': 'replaced',
                             'api': 'external', 'twin': None}
+        for q in (name, 'sc/' + name):
+          try:
+            out = gin.get_configurable(q)()
+            if not (isinstance(out, tuple) and out[0] == name):
+              v('C13.registry_version_configured',
+                ['after-reregistration', 'scoped' if '/' in q else 'plain'],
+                'after re-registering %s in interactive mode, '
+                'get_configurable(%r)() still reaches the old object: %r' %
+                (name, q, out))
+          except Exception as e:  # pylint: disable=broad-except
+            v('C13.registry_version_configured',
+              ['after-reregistration', type(e).__name__],
+              'get_configurable(%r)() after re-registration raised %r' % (q, e))
       # after the block (left by either path) re-registration is rejected again
       try:
         gin.external_configurable(other(name), name=name, module=MOD)
